@@ -28,6 +28,8 @@ def one_transfer(rng, T=16, C=8, kinds=None, sizes=None):
         t['flavor'] = rng.choice(['bare', 'bare', 'declared', 'raising'])
     if kind == 'download' and t['dst'] == 'path':
         t['preexisting'] = rng.random() < 0.3
+    if ((kind == 'upload' and t.get('src') == 'path') or (kind == 'download' and t.get('dst') == 'fifo')) and rng.random() < 0.2:
+        t['symlink'] = True  # the path given to the library is a symbolic link to the file / FIFO
     if kind != 'delete' and rng.random() < 0.12:
         # the size supplied by a subscriber in on_queued instead of being discovered by the library
         t['subs'] = [{'provide_size': size}]
